@@ -1,8 +1,574 @@
-import Isotp.Process
+import Isotp.Proofs.Fc
 /-
-  C04 — property theorems (see DESIGN.md §6). Helper lemmas live in Isotp/Proofs.
+  C04 — Sender obeys flow control from any peer and always terminates.
+  Property theorems only; helper lemmas live in Isotp/Proofs/Fc.lean.
+
+  Vocabulary (all defined in Proofs/Fc.lean):
+  * `cfBranch s`      this `processTx` call runs the TRANSMIT_CF branch of the state machine, the
+                      only place where a Consecutive Frame is built;
+  * `EmitsCf s msg`   `cfBranch s` and the call hands `msg` out;
+  * `ctsHonoured s fc` the guard under which `handleFc` honours a ContinueToSend
+                      (`status = 0`, N_Bs not expired, state WAIT_FC or TRANSMIT_CF);
+  * `TxEv`, `monStep`, `monRun`, `txEvents`, `Coupled`  the block-size monitor of the property
+                      text, the events of one `processTx` call, and the coupling invariant;
+  * `TxWf`, `TxLive`  transmit-side well-formedness / "no wedged state";
+  * `afterFc`, `afterTimeout`  phases 1 and 2 of `_process_tx` (mailbox, N_Bs check).
+  The clause "everything emitted is a prefix of the reference segmentation" is handled elsewhere.
 -/
 namespace Isotp.C04
-open Isotp State
+open Isotp State Fc
+
+/-! ### Concrete states used by the non-vacuity examples -/
+
+def exHalf : Half :=
+  { mode := .n11, txid := some 0x123, rxid := some 0x456, ta := none, sa := none, ae := none,
+    physId := 0, funcId := 0, rxOnly := false, txOnly := false }
+def exAddr : Addr := ⟨exHalf, exHalf⟩
+def exReq : Req := { id := 7, size := 30, src := List.replicate 30 0x55 }
+def exReq2 : Req := { id := 8, size := 3, src := [1, 2, 3] }
+/-- idle layer, a 30-byte and a 3-byte request queued, `wftmax = 1` -/
+def ex0 : State := { State.init { wftmax := 1 } exAddr with txQueue := [exReq, exReq2] }
+/-- after the First Frame (sent at t = 0): WAIT_FC -/
+def ex1 : State := ex0.processTx.1
+/-- ContinueToSend(BS = 2, STmin = 0) in the mailbox at 1 ms -/
+def exCts : State := { ex1 with now := 1000000, lastFc := some ⟨0, 2, 0⟩ }
+/-- first CF of the block sent: TRANSMIT_CF, `txBlockCnt = 1` -/
+def ex2 : State := exCts.processTx.1
+/-- second CF sent: block of 2 exhausted, WAIT_FC again -/
+def ex3 : State := ex2.processTx.1
+/-- Wait / Overflow / nothing in the mailbox while waiting -/
+def exWait : State := { ex1 with now := 1000000, lastFc := some ⟨1, 0, 0⟩ }
+def exOvfl : State := { ex1 with now := 1000000, lastFc := some ⟨2, 0, 0⟩ }
+def exLate : State := { ex1 with now := 1000000001 }
+def exLateCts : State := { ex1 with now := 1000000001, lastFc := some ⟨0, 2, 0⟩ }
+/-- a second Wait after the first one was accepted (`wftmax = 1`) -/
+def exWait2 : State := { exWait.processTx.1 with lastFc := some ⟨1, 0, 0⟩ }
+/-- the same WAIT_FC situation under the default `wftmax = 0` -/
+def exWait0 : State :=
+  { ({ State.init {} exAddr with txQueue := [exReq] } : State).processTx.1 with
+    now := 1000000, lastFc := some ⟨1, 0, 0⟩ }
+/-- mid-block ContinueToSend with a smaller block size: BS 8 granted, 5 sent, then BS 3 -/
+def exMid : State := { ex2 with remoteBs := some 8, txBlockCnt := 5, lastFc := some ⟨0, 3, 0⟩ }
+
+/-! ### 1. `no_cf_before_cts` -/
+
+/-- A Consecutive Frame can only be built by a call that starts in TRANSMIT_CF (so a
+    ContinueToSend was honoured before), or that starts in WAIT_FC and finds an honoured
+    ContinueToSend in its mailbox. -/
+theorem cf_only_after_cts (s : State) (h : cfBranch s = true) :
+    s.txState = .transmitCf ∨
+    (s.txState = .waitFc ∧ ∃ fc, s.lastFc = some fc ∧ ctsHonoured s fc = true) :=
+  cfBranch_cases s h
+
+/-- In WAIT_FC (after the First Frame or at a block boundary) a Consecutive Frame is emitted
+    only if the mailbox holds a ContinueToSend and the N_Bs timer has not expired. -/
+theorem no_cf_before_cts (s : State) (msg : CanMsg) (hs : s.txState = .waitFc) (h : EmitsCf s msg) :
+    ∃ fc, s.lastFc = some fc ∧ fc.status = 0 ∧ s.timerFc.timedOut s.now = false := by
+  rcases cfBranch_cases s h.1 with h1 | ⟨_, fc, hfc, hh⟩
+  · rw [hs] at h1; cases h1
+  · refine ⟨fc, hfc, ?_⟩
+    simp only [ctsHonoured, Bool.and_eq_true, decide_eq_true_eq, Bool.not_eq_true'] at hh
+    exact ⟨hh.1.1, hh.1.2⟩
+
+/-- with an empty mailbox no Consecutive Frame leaves WAIT_FC -/
+theorem no_cf_without_fc (s : State) (hs : s.txState = .waitFc) (hfc : s.lastFc = none) :
+    cfBranch s = false := by
+  cases h : cfBranch s with
+  | false => rfl
+  | true =>
+    rcases cfBranch_cases s h with h1 | ⟨_, fc, hfc', _⟩
+    · rw [hs] at h1; cases h1
+    · rw [hfc] at hfc'; cases hfc'
+
+/-- nor with a Wait or Overflow frame (or any status other than ContinueToSend) -/
+theorem no_cf_on_wait_or_overflow (s : State) (fc : FcFrame) (hs : s.txState = .waitFc)
+    (hfc : s.lastFc = some fc) (hst : fc.status ≠ 0) : cfBranch s = false := by
+  cases h : cfBranch s with
+  | false => rfl
+  | true =>
+    rcases cfBranch_cases s h with h1 | ⟨_, fc', hfc', hh⟩
+    · rw [hs] at h1; cases h1
+    · rw [hfc] at hfc'; cases hfc'
+      simp [ctsHonoured, hst] at hh
+
+/-- nor once the N_Bs deadline has passed, even with a ContinueToSend in the mailbox -/
+theorem no_cf_after_deadline (s : State) (hs : s.txState = .waitFc)
+    (ht : s.timerFc.timedOut s.now = true) : cfBranch s = false := by
+  cases h : cfBranch s with
+  | false => rfl
+  | true =>
+    rcases cfBranch_cases s h with h1 | ⟨_, fc', _, hh⟩
+    · rw [hs] at h1; cases h1
+    · simp [ctsHonoured, ht] at hh
+
+/-- idle, or First/Single Frame still held back by the rate limiter: no Consecutive Frame,
+    whatever the mailbox holds -/
+theorem no_cf_outside_transmission (s : State)
+    (hs : s.txState = .idle ∨ s.txState = .sfStandby ∨ s.txState = .ffStandby) :
+    cfBranch s = false := by
+  cases h : cfBranch s with
+  | false => rfl
+  | true =>
+    rcases cfBranch_cases s h with h1 | ⟨h1, _⟩ <;> rcases hs with hs | hs | hs <;>
+      rw [hs] at h1 <;> cases h1
+
+/-- D5 (fixed): while the First Frame is in standby a received ContinueToSend does not move the
+    state machine to TRANSMIT_CF — `handleFc` leaves the state untouched. -/
+theorem cts_in_standby_ignored (s : State) (fc : FcFrame) (h0 : fc.status = 0)
+    (hs : s.txState = .sfStandby ∨ s.txState = .ffStandby) : s.handleFc fc = s :=
+  handleFc_cts_standby s fc h0 hs
+
+/-- WAIT_FC, nothing received, deadline not reached: the pass does nothing at all -/
+theorem waitFc_quiet (s : State) (r : Req) (hs : s.txState = .waitFc) (hp : s.pendingFc = false)
+    (hfc : s.lastFc = none) (ht : s.timerFc.timedOut s.now = false) (ha : s.active = some r)
+    (hd : r.depleted = false) : s.processTx = (s, none, false) :=
+  processTx_waitFc_quiet s r hs hp hfc ht ha hd
+
+example : ex1.txState = .waitFc ∧ ex1.lastFc = none ∧ ex1.pendingFc = false := by decide
+example : ex1.processTx.2.1 = none := by decide
+example : EmitsCf exCts (exCts.processTx.2.1.get (by decide)) := ⟨by decide, by simp⟩
+example : exCts.processTx.2.1.map (·.data) = some [0x21, 0x55, 0x55, 0x55, 0x55, 0x55, 0x55, 0x55] := by
+  decide
+example : exWait.txState = .waitFc ∧ exWait.processTx.2.1 = none := by decide
+example : exLateCts.txState = .waitFc ∧ exLateCts.timerFc.timedOut exLateCts.now = true := by decide
+
+/-! ### 2. `block_bound` -/
+
+/-- **Monitor step theorem.** The monitor of the property text (FF/SF handed out → budget 0;
+    ContinueToSend(BS) read → budget := max budget (BS, or ∞ for BS = 0); CF handed out →
+    violation if the budget is 0, else budget − 1) is never violated by a `processTx` call, and
+    the coupling between model state and budget is re-established: in TRANSMIT_CF the budget is at
+    least 1, is ∞ when the granted BS is 0, and is at least `BS − txBlockCnt` while
+    `txBlockCnt < BS`. -/
+theorem block_bound_step (s : State) (b : Budget) (h : Coupled s b) :
+    ∃ b', monRun b (txEvents s) = some b' ∧ Coupled s.processTx.1 b' :=
+  monitor_step s b h
+
+/-- the coupling holds trivially outside TRANSMIT_CF, in particular initially -/
+theorem coupled_init (c : Cfg) (a : Addr) (b : Budget) : Coupled (State.init c a) b :=
+  Coupled_of_not_cf b (by simp [State.init])
+
+/-- and it only depends on what `processTx` itself writes: `processRx` keeps it -/
+theorem coupled_processRx (s : State) (m : CanMsg) (b : Budget) (h : Coupled s b) :
+    Coupled (s.processRx m).1 b := by
+  have := processRx_txView s m
+  simp only [txView, Prod.mk.injEq] at this
+  exact Coupled_congr this.1 this.2.2.2.2.2.1 this.2.2.2.2.2.2.1 h
+
+theorem coupled_advance (s : State) (dt : Nat) (b : Budget) (h : Coupled s b) :
+    Coupled (s.advance dt) b := h
+
+theorem coupled_send (s : State) (a : SendArgs) (b : Budget) (h : Coupled s b) :
+    Coupled (s.send a).1 b := by
+  unfold send
+  simp only []
+  repeat' split
+  all_goals exact h
+
+theorem coupled_checkTimeoutsRx (s : State) (b : Budget) (h : Coupled s b) :
+    Coupled s.checkTimeoutsRx b := by
+  unfold checkTimeoutsRx
+  split <;> exact h
+
+theorem coupled_reset (s : State) (b : Budget) : Coupled s.reset b := by
+  unfold reset
+  exact Coupled_congr (s := (({ s with rxQueue := [] } : State).clearTxQueue s.txQueue).stopSending false)
+    rfl rfl rfl (Coupled_stopSending _ _ _)
+
+/-- operations of a single-threaded run -/
+inductive Op where
+  | tx | rx (m : CanMsg) | tick (dt : Nat) | send (a : SendArgs) | checkRx | reset
+
+def step (s : State) : Op → State
+  | .tx => s.processTx.1
+  | .rx m => (s.processRx m).1
+  | .tick dt => s.advance dt
+  | .send a => (s.send a).1
+  | .checkRx => s.checkTimeoutsRx
+  | .reset => s.reset
+
+/-- monitor events of a run (only `processTx` calls produce any) -/
+def runEvents (s : State) : List Op → List TxEv
+  | [] => []
+  | .tx :: ops => txEvents s ++ runEvents s.processTx.1 ops
+  | o :: ops => runEvents (step s o) ops
+
+def run (s : State) : List Op → State
+  | [] => s
+  | o :: ops => run (step s o) ops
+
+theorem monRun_append (b : Budget) (l1 l2 : List TxEv) :
+    monRun b (l1 ++ l2) = (monRun b l1).bind (fun b1 => monRun b1 l2) := by
+  induction l1 generalizing b with
+  | nil => rfl
+  | cons e es ih =>
+    simp only [List.cons_append, monRun]
+    cases monStep b e with
+    | none => rfl
+    | some b' => exact ih b'
+
+/-- **Block bound over a whole run.** Starting from any state coupled with the budget (e.g. a
+    fresh layer with budget 0), whatever Flow Control frames arrive and whenever `process` is
+    called, the sequence of First/Consecutive Frames handed out and ContinueToSend frames read
+    never violates the monitor: never a Consecutive Frame before a ContinueToSend, never more
+    Consecutive Frames than granted since the sender last waited. -/
+theorem block_bound_run (ops : List Op) (s : State) (b : Budget) (h : Coupled s b) :
+    ∃ b', monRun b (runEvents s ops) = some b' ∧ Coupled (run s ops) b' := by
+  induction ops generalizing s b with
+  | nil => exact ⟨b, rfl, h⟩
+  | cons o ops ih =>
+    cases o with
+    | tx =>
+      obtain ⟨b1, h1, c1⟩ := monitor_step s b h
+      obtain ⟨b2, h2, c2⟩ := ih s.processTx.1 b1 c1
+      refine ⟨b2, ?_, c2⟩
+      simp only [runEvents, monRun_append, h1]
+      exact h2
+    | rx m => exact ih _ b (coupled_processRx s m b h)
+    | tick dt => exact ih _ b (coupled_advance s dt b h)
+    | send a => exact ih _ b (coupled_send s a b h)
+    | checkRx => exact ih _ b (coupled_checkTimeoutsRx s b h)
+    | reset => exact ih _ b (coupled_reset s b)
+
+/-- the state-only invariant of the task description -/
+def BlockInv (s : State) : Prop :=
+  s.txState = .transmitCf → ∃ bs, s.remoteBs = some bs ∧ (bs = 0 ∨ s.txBlockCnt < bs)
+
+/-- established by a ContinueToSend honoured in WAIT_FC (the block counter restarts at 0; a
+    granted BS of 0 means "no limit") -/
+theorem blockInv_established (s : State) (fc : FcFrame) (hs : s.txState = .waitFc)
+    (h : ctsHonoured s fc = true) :
+    BlockInv (s.handleFc fc) ∧ (s.handleFc fc).txBlockCnt = 0 ∧ (s.handleFc fc).remoteBs = some fc.bs := by
+  rw [handleFc_cts s fc h]
+  refine ⟨fun _ => ⟨fc.bs, rfl, ?_⟩, ?_, rfl⟩
+  · simp only [hs, if_true]; omega
+  · simp only [hs, if_true]
+
+/-- preserved by the TRANSMIT_CF branch: after the frame that completes the block
+    (`txBlockCnt + 1 ≥ BS ≠ 0`) the state machine is not in TRANSMIT_CF any more -/
+theorem blockInv_transmitCf (s : State) (allowed : Nat) (h : BlockInv s) (hs : s.txState = .transmitCf) :
+    BlockInv (s.transmitCf allowed).1 := by
+  obtain ⟨bs, hb, hlt⟩ := h hs
+  intro hs'
+  obtain ⟨k1, k2, k3⟩ := (transmitCf_block s allowed bs hb).2 hs'
+  refine ⟨bs, k1, ?_⟩
+  cases ho : (s.transmitCf allowed).2.1 with
+  | none => rw [k2 ho]; exact hlt
+  | some m =>
+    obtain ⟨k4, k5⟩ := k3 (by simp [ho])
+    rw [k4]; exact k5
+
+/-- at the end of a block the sender waits, with the N_Bs timer running: the frame that
+    completes the block (`txBlockCnt + 1 ≥ BS ≠ 0`) is followed by WAIT_FC (or by idle when the
+    message is finished) -/
+theorem block_end_waits (s : State) (allowed bs : Nat) (hb : s.remoteBs = some bs) (h0 : bs ≠ 0)
+    (hc : s.txBlockCnt + 1 ≥ bs) (ho : (s.transmitCf allowed).2.1.isSome) :
+    (s.transmitCf allowed).1.txState = .idle ∨ (s.transmitCf allowed).1.txState = .waitFc :=
+  transmitCf_block_end s allowed bs hb h0 hc ho
+
+theorem block_end_starts_timer (s : State) (allowed : Nat) (hs : s.txState = .transmitCf)
+    (h : (s.transmitCf allowed).1.txState = .waitFc) :
+    (s.transmitCf allowed).1.timerFc = { start := some s.now, timeout := s.cfg.tFc } :=
+  transmitCf_waitFc_timer s allowed hs h
+
+/-- A ContinueToSend honoured *mid-block* (state TRANSMIT_CF) replaces the block size but keeps
+    the count of frames already sent in the block. -/
+theorem midblock_cts (s : State) (fc : FcFrame) (hs : s.txState = .transmitCf)
+    (h : ctsHonoured s fc = true) :
+    (s.handleFc fc).remoteBs = some fc.bs ∧ (s.handleFc fc).txBlockCnt = s.txBlockCnt ∧
+    (s.handleFc fc).txState = .transmitCf := by
+  rw [handleFc_cts s fc h]
+  simp [hs]
+
+/-- Consequently the state-only invariant `BlockInv` (`txBlockCnt < BS`) is **not** preserved by
+    a mid-block ContinueToSend whose block size does not exceed the frames already sent:
+    witness BS 8 granted, 5 sent, then ContinueToSend(BS = 3). -/
+theorem blockInv_not_preserved_midblock :
+    BlockInv exMid ∧ ctsHonoured exMid ⟨0, 3, 0⟩ = true ∧ ¬ BlockInv (exMid.handleFc ⟨0, 3, 0⟩) := by
+  refine ⟨fun _ => ⟨8, by decide, by decide⟩, by decide, ?_⟩
+  intro h
+  obtain ⟨bs, hb, hlt⟩ := h (by decide)
+  have : (exMid.handleFc ⟨0, 3, 0⟩).remoteBs = some 3 := by decide
+  rw [this] at hb
+  injection hb with hb
+  subst hb
+  have : (exMid.handleFc ⟨0, 3, 0⟩).txBlockCnt = 5 := by decide
+  rw [this] at hlt
+  omega
+
+/-- What the model does then: exactly one more Consecutive Frame goes out, after which the
+    sender waits (WAIT_FC) or is done.  This is within the monitor's budget, which still holds
+    the remainder (8 − 5 = 3) of the earlier grant: `block_bound_step` covers this case. -/
+theorem midblock_overrun_one_then_wait (s : State) (allowed bs : Nat) (hb : s.remoteBs = some bs)
+    (h0 : bs ≠ 0) (hc : s.txBlockCnt ≥ bs) (ho : (s.transmitCf allowed).2.1.isSome) :
+    (s.transmitCf allowed).1.txState = .idle ∨ (s.transmitCf allowed).1.txState = .waitFc :=
+  transmitCf_overrun s allowed bs hb h0 hc ho
+
+example : Coupled ex1 (some 0) := Coupled_of_not_cf _ (by decide)
+example : txEvents exCts = [.fcRead 2, .cfSent] := by decide
+example : txEvents ex2 = [.cfSent] := by decide
+example : ex2.txState = .transmitCf ∧ ex2.txBlockCnt = 1 ∧ ex3.txState = .waitFc := by decide
+example : monRun (some 0) (txEvents exCts ++ txEvents ex2) = some (some 0) := by decide
+/-- a third Consecutive Frame would be a violation — and the model does not emit it -/
+example : monRun (some 0) ([.fcRead 2, .cfSent, .cfSent, .cfSent]) = none := by decide
+example : txEvents ex3 = [] := by decide
+example : txEvents ex0 = [.startSent] := by decide
+example : txEvents exMid = [.fcRead 3, .cfSent] ∧ exMid.processTx.1.txState = .waitFc := by decide
+
+/-! ### 3. `abort_*` -/
+
+theorem stopSending_log (s : State) (r : Req) (ok : Bool) (ha : s.active = some r) :
+    (s.stopSending ok).log = .done r.id ok :: s.log := by
+  simp [stopSending, ha, emit]
+
+/-- (a) **Overflow** while a request is active: `.done id false` then the Overflow error are
+    logged, nothing is sent, the state machine is idle, the request is gone and not re-queued. -/
+theorem abort_overflow (s : State) (fc : FcFrame) (r : Req) (hp : s.pendingFc = false)
+    (hfc : s.lastFc = some fc) (h2 : fc.status = 2) (ha : s.active = some r) :
+    s.processTx.2 = (none, false) ∧ s.processTx.1.txState = .idle ∧ s.processTx.1.active = none ∧
+    s.processTx.1.txQueue = s.txQueue ∧ s.processTx.1.lastFc = none ∧
+    s.processTx.1.log = .err s.now .Overflow :: .done r.id false :: s.log := by
+  rw [processTx_overflow s fc hp hfc h2]
+  have hi := stopSending_idle ({ s with lastFc := none } : State) false
+  have hm := stopSending_misc ({ s with lastFc := none } : State) false
+  have hl := stopSending_log ({ s with lastFc := none } : State) r false ha
+  refine ⟨rfl, hi.1, hi.2.1, hi.2.2.2.1, hm.1, ?_⟩
+  show State.log (State.error _ _) = _
+  simp only [State.error, emit, hl, hi.2.2.1]
+
+/-- (b) **Wait with `wftmax = 0`**: the frame is reported as unsupported and changes nothing
+    else — the pass goes on exactly as a pass with an empty mailbox on the same state (plus the
+    log entry). -/
+theorem wait_unsupported (s : State) (fc : FcFrame) (hp : s.pendingFc = false)
+    (hfc : s.lastFc = some fc) (hs : s.txState ≠ .idle) (h1 : fc.status = 1)
+    (ht : s.timerFc.timedOut s.now = false) (hw : s.cfg.wftmax = 0) :
+    afterFc s = (({ s with lastFc := none } : State).error .UnsupportedWaitFrame, false) ∧
+    s.processTx = (({ s with lastFc := none } : State).error .UnsupportedWaitFrame).processTx := by
+  have h := afterFc_wait_unsupported s fc hfc hs h1 ht hw
+  refine ⟨h, ?_⟩
+  rw [processTx_continue s hp (by rw [h]), h]
+  congr 1
+  exact afterTimeout_of_not_timedOut ht
+
+/-- (c) **Too many Wait frames** (`wftCnt ≥ wftmax > 0`): MaximumWaitFrameReached is logged, the
+    request fails, the state machine is idle; the pass then goes on as a fresh pass on that
+    idle state. -/
+theorem abort_wait_max (s : State) (fc : FcFrame) (r : Req) (hp : s.pendingFc = false)
+    (hfc : s.lastFc = some fc) (hs : s.txState ≠ .idle) (h1 : fc.status = 1)
+    (ht : s.timerFc.timedOut s.now = false) (hw : s.cfg.wftmax ≠ 0) (hc : s.wftCnt ≥ s.cfg.wftmax)
+    (ha : s.active = some r) :
+    let s' := (({ s with lastFc := none } : State).error .MaximumWaitFrameReached).stopSending false
+    (afterFc s).1 = s' ∧ s.processTx = s'.processTx ∧
+    s'.txState = .idle ∧ s'.active = none ∧ s'.txQueue = s.txQueue ∧ s'.timerFc.start = none ∧
+    s'.log = .done r.id false :: .err s.now .MaximumWaitFrameReached :: s.log := by
+  intro s'
+  have h := afterFc_wait_max s fc hfc hs h1 ht hw hc
+  have hi := stopSending_idle (({ s with lastFc := none } : State).error .MaximumWaitFrameReached) false
+  refine ⟨by rw [h], ?_, hi.1, hi.2.1, hi.2.2.2.1, hi.2.2.2.2.1, ?_⟩
+  · rw [processTx_continue s hp (by rw [h]), h]
+    congr 1 <;> exact afterTimeout_of_not_timedOut (timedOut_of_stopped hi.2.2.2.2.1 _)
+  · exact stopSending_log _ r false ha
+
+/-- (c′) a Wait frame within the allowance is accepted: counter + 1, state WAIT_FC, N_Bs timer
+    restarted at the current time -/
+theorem wait_accepted (s : State) (fc : FcFrame) (hfc : s.lastFc = some fc)
+    (hs : s.txState = .waitFc ∨ s.txState = .transmitCf) (h1 : fc.status = 1)
+    (ht : s.timerFc.timedOut s.now = false) (hc : s.wftCnt < s.cfg.wftmax) :
+    afterFc s =
+      ({ s with lastFc := none, wftCnt := s.wftCnt + 1, txState := .waitFc,
+                timerFc := { start := some s.now, timeout := s.cfg.tFc } }, false) :=
+  afterFc_wait_ok s fc hfc hs h1 ht hc
+
+/-- (d) **N_Bs expiry** in WAIT_FC (or any non-idle state with the timer expired): whatever
+    non-Overflow frame the same pass reads from the mailbox — a ContinueToSend, a Wait (D11) — it
+    is not honoured; FlowControlTimeout is logged, the request fails, the state machine is idle;
+    the pass then goes on as a fresh pass on that idle state. -/
+theorem abort_fc_timeout (s : State) (r : Req) (hp : s.pendingFc = false) (hs : s.txState ≠ .idle)
+    (ht : s.timerFc.timedOut s.now = true) (h2 : ∀ fc, s.lastFc = some fc → fc.status ≠ 2)
+    (ha : s.active = some r) :
+    let s' := (({ s with lastFc := none } : State).error .FlowControlTimeout).stopSending false
+    afterTimeout (afterFc s).1 = s' ∧ s.processTx = s'.processTx ∧
+    s'.txState = .idle ∧ s'.active = none ∧ s'.txQueue = s.txQueue ∧ s'.timerFc.start = none ∧
+    s'.log = .done r.id false :: .err s.now .FlowControlTimeout :: s.log := by
+  intro s'
+  have h := afterTimeout_late s hs ht h2
+  have hf := afterFc_late s hs ht h2
+  have hi := stopSending_idle (({ s with lastFc := none } : State).error .FlowControlTimeout) false
+  refine ⟨h, ?_, hi.1, hi.2.1, hi.2.2.2.1, hi.2.2.2.2.1, ?_⟩
+  · rw [processTx_continue s hp (by rw [hf]), h]
+  · exact stopSending_log _ r false ha
+
+/-- every way a message ends (success or any failure) goes through `_stop_sending`: idle, no
+    active request, both timers stopped, nothing in standby — nothing refers to the request any
+    more, and the queue is untouched -/
+theorem after_end_idle (s : State) (ok : Bool) :
+    (s.stopSending ok).txState = .idle ∧ (s.stopSending ok).active = none ∧
+    (s.stopSending ok).now = s.now ∧ (s.stopSending ok).txQueue = s.txQueue ∧
+    (s.stopSending ok).timerFc.start = none ∧ (s.stopSending ok).timerStmin.start = none ∧
+    (s.stopSending ok).standby = none :=
+  stopSending_idle s ok
+
+example : exOvfl.processTx.1.log.take 2 = [.err 1000000 .Overflow, .done 7 false] := by decide
+example : exWait0.processTx.1.log.head? = some (.err 1000000 .UnsupportedWaitFrame) ∧
+    exWait0.processTx.1.txState = .waitFc ∧ exWait0.processTx.1.wftCnt = 0 := by decide
+example : exWait.processTx.1.wftCnt = 1 ∧ exWait.processTx.1.txState = .waitFc ∧
+    exWait.processTx.1.timerFc.start = some 1000000 := by decide
+example : exWait2.wftCnt ≥ exWait2.cfg.wftmax ∧ exWait2.cfg.wftmax ≠ 0 := by decide
+example : exWait2.processTx.1.log.take 3 =
+    [.done 8 true, .done 7 false, .err 1000000 .MaximumWaitFrameReached] := by decide
+example : exLateCts.processTx.1.log.take 3 =
+    [.done 8 true, .done 7 false, .err 1000000001 .FlowControlTimeout] := by decide
+example : exLate.timerFc.timedOut exLate.now = true ∧ exLate.txState ≠ .idle := by decide
+
+/-! ### 4. `next_message` -/
+
+/-- Once a message has ended the state machine is idle (see `after_end_idle`), and the next pass
+    without pending work takes the head of the queue and starts it: the result of the pass is
+    the Single/First Frame handling `startTx` of that request, plus limiter accounting. -/
+theorem next_message (s : State) (r : Req) (rest : List Req) (hs : s.txState = .idle)
+    (hp : s.pendingFc = false) (hfc : s.lastFc = none) (ht : s.timerFc.start = none)
+    (hq : s.txQueue = r :: rest) (hd : r.depleted = false) :
+    s.processTx =
+      finish ((({ s with txQueue := rest, active := some r } : State).startTx r (allowedNow s)).1,
+              (({ s with txQueue := rest, active := some r } : State).startTx r (allowedNow s)).2, false) :=
+  processTx_next_message s r rest hs hp hfc ht hq hd
+
+/-- the next message starts in the very pass in which the previous one was aborted -/
+example : exLate.processTx.2.1.map (·.data) = some [0x03, 1, 2, 3] := by decide
+example : exLate.processTx.1.txState = .idle ∧ exLate.processTx.1.txQueue = [] := by decide
+/-- and normally after a successful end -/
+example : ex0.processTx.2.1.map (·.data) = some [0x10, 30, 0x55, 0x55, 0x55, 0x55, 0x55, 0x55] := by decide
+
+/-! ### 5. `terminates` -/
+
+/-- "No wedged state": `TxWf` holds initially … -/
+theorem txWf_init (c : Cfg) (a : Addr) : TxWf (State.init c a) := TxWf_init c a
+/-- … and is kept by every operation: -/
+theorem txWf_processTx (s : State) (h : TxWf s) : TxWf s.processTx.1 := TxWf_processTx s h
+theorem txWf_processRx (s : State) (m : CanMsg) (h : TxWf s) : TxWf (s.processRx m).1 := TxWf_processRx s m h
+theorem txWf_send (s : State) (a : SendArgs) (h : TxWf s) : TxWf (s.send a).1 := TxWf_send s a h
+theorem txWf_stopSending (s : State) (ok : Bool) : TxWf (s.stopSending ok) := TxWf_stopSending s ok
+theorem txWf_reset (s : State) : TxWf s.reset := TxWf_reset s
+theorem txWf_checkTimeoutsRx (s : State) (h : TxWf s) : TxWf s.checkTimeoutsRx := TxWf_checkTimeoutsRx s h
+theorem txWf_advance (s : State) (dt : Nat) (h : TxWf s) : TxWf (s.advance dt) := TxWf_advance s dt h
+/-- including a whole `process()` call -/
+theorem txWf_process (s : State) (doRx doTx : Bool) (h : TxWf s) : TxWf (s.process doRx doTx).1 :=
+  process_stable TxWf_loopStable s doRx doTx h
+
+/-- so in every reachable state a message in progress has a running timer or a frame waiting
+    for the rate limiter: WAIT_FC ⇒ N_Bs timer running with timeout `rx_flowcontrol_timeout`;
+    TRANSMIT_CF ⇒ STmin timer running and a block size known; standby ⇒ the frame is there;
+    non-idle ⇒ a request is active; and never more than `wftmax` Wait frames honoured in a row. -/
+theorem no_wedged_state (s : State) (h : TxWf s) :
+    TxLive s ∧
+    (s.txState = .waitFc → s.timerFc.start.isSome ∧ s.timerFc.timeout = s.cfg.tFc) ∧
+    (s.txState = .transmitCf → s.timerStmin.start.isSome ∧ s.remoteBs.isSome) ∧
+    (s.txState = .sfStandby ∨ s.txState = .ffStandby → s.standby.isSome) ∧
+    (s.txState ≠ .idle → s.active.isSome) ∧ s.wftCnt ≤ s.cfg.wftmax :=
+  ⟨TxLive_of_TxWf h, h.1, h.2.2.1, h.2.2.2.1, h.2.2.2.2.1, h.2.2.2.2.2⟩
+
+/-- (i) WAIT_FC is left at the latest by the first pass after the N_Bs deadline: the timer that
+    `TxWf` guarantees to be running has then expired, and `abort_fc_timeout` applies. -/
+theorem waitFc_deadline (s : State) (t0 : Nat) (hw : TxWf s) (hs : s.txState = .waitFc)
+    (hst : s.timerFc.start = some t0) (hdue : s.now - t0 > s.cfg.tFc ∨ s.cfg.tFc = 0) :
+    s.timerFc.timedOut s.now = true := by
+  rw [Timer_timedOut_iff]
+  refine ⟨t0, hst, ?_⟩
+  rw [(hw.1 hs).2]
+  exact hdue
+
+/-- (ii) TRANSMIT_CF makes progress at the latest by the first pass after the STmin deadline
+    (mailbox empty, limiter letting the frame through): the pass raises, ends the message, or
+    hands out a Consecutive Frame and strictly decreases the number of bytes left to send. -/
+theorem transmitCf_deadline (s : State) (r : Req) (t0 : Nat) (hw : TxWf s) (hs : s.txState = .transmitCf)
+    (hst : s.timerStmin.start = some t0)
+    (hdue : s.now - t0 > s.timerStmin.timeout ∨ s.timerStmin.timeout = 0)
+    (hp : s.pendingFc = false) (hfc : s.lastFc = none) (ha : s.active = some r)
+    (hd : r.depleted = false) (hl : cfPayloadLen s r ≤ (allowedNow s))
+    (hdl : s.txPrefixLen + 2 ≤ s.cfg.txDl) :
+    s.processTx.1.exc.isSome ∨ s.processTx.1.txState = .idle ∨
+    (∃ msg r', s.processTx.2.1 = some msg ∧ s.processTx.1.active = some r' ∧
+      r'.remaining < r.remaining ∧ r'.id = r.id ∧ r'.size = r.size) :=
+  processTx_cf_progress s r hw hs hp hfc ha hd ((Timer_timedOut_iff _ _).2 ⟨t0, hst, hdue⟩) hl hdl
+
+/-- the frame-size side condition of (ii) holds for every valid configuration and address mode
+    (`tx_data_length ≥ 8`, address prefix of at most one byte) -/
+theorem prefix_fits (s : State) (hv : s.cfg.valid = true) : s.txPrefixLen + 2 ≤ s.cfg.txDl := by
+  have h1 : s.txPrefixLen ≤ 1 := by
+    unfold txPrefixLen Half.txPrefix
+    cases s.addr.tx.mode <;> simp
+  have h2 : 8 ≤ s.cfg.txDl := by
+    simp only [Cfg.valid, validTxDl, Bool.and_eq_true, Bool.or_eq_true, decide_eq_true_eq] at hv
+    omega
+  omega
+
+/-- (iii) Wait frames: an accepted Wait increments the counter, which never exceeds `wftmax`
+    (`TxWf`), and a ContinueToSend resets it — so at most `wftmax` Waits in a row are honoured,
+    each extending the wait by at most `rx_flowcontrol_timeout`. -/
+theorem wait_frames_bounded (s : State) (fc : FcFrame) (hw : TxWf s)
+    (hs : s.txState = .waitFc ∨ s.txState = .transmitCf) (h1 : fc.status = 1)
+    (ht : s.timerFc.timedOut s.now = false) (hc : s.wftCnt < s.cfg.wftmax) :
+    (s.handleFc fc).wftCnt = s.wftCnt + 1 ∧ (s.handleFc fc).wftCnt ≤ (s.handleFc fc).cfg.wftmax :=
+  ⟨by rw [handleFc_wait_ok s fc hs h1 ht hc], (TxWf_handleFc s fc hw).2.2.2.2.2⟩
+
+theorem cts_resets_wait_count (s : State) (fc : FcFrame) (h : ctsHonoured s fc = true) :
+    (s.handleFc fc).wftCnt = 0 := by
+  rw [handleFc_cts s fc h]
+
+example : TxWf ex0 := by simp [TxWf, ex0, State.init]
+example : TxWf ex3 :=
+  txWf_processTx _ (txWf_processTx _ (txWf_processTx ex0 (by simp [TxWf, ex0, State.init])))
+example : ex3.txState = .waitFc ∧ ex3.timerFc = { start := some 1000000, timeout := 1000000000 } := by decide
+example : exLate.timerFc.start = some 0 ∧ exLate.now - 0 > exLate.cfg.tFc := by decide
+example : ex2.timerStmin = { start := some 1000000, timeout := 0 } ∧ ex2.txPrefixLen + 2 ≤ ex2.cfg.txDl := by
+  decide
 
 end Isotp.C04
+
+#print axioms Isotp.C04.cf_only_after_cts
+#print axioms Isotp.C04.no_cf_before_cts
+#print axioms Isotp.C04.no_cf_without_fc
+#print axioms Isotp.C04.no_cf_on_wait_or_overflow
+#print axioms Isotp.C04.no_cf_after_deadline
+#print axioms Isotp.C04.no_cf_outside_transmission
+#print axioms Isotp.C04.cts_in_standby_ignored
+#print axioms Isotp.C04.waitFc_quiet
+#print axioms Isotp.C04.block_bound_step
+#print axioms Isotp.C04.block_bound_run
+#print axioms Isotp.C04.coupled_init
+#print axioms Isotp.C04.coupled_processRx
+#print axioms Isotp.C04.coupled_advance
+#print axioms Isotp.C04.coupled_send
+#print axioms Isotp.C04.coupled_checkTimeoutsRx
+#print axioms Isotp.C04.coupled_reset
+#print axioms Isotp.C04.monRun_append
+#print axioms Isotp.C04.stopSending_log
+#print axioms Isotp.C04.blockInv_established
+#print axioms Isotp.C04.blockInv_transmitCf
+#print axioms Isotp.C04.block_end_waits
+#print axioms Isotp.C04.block_end_starts_timer
+#print axioms Isotp.C04.midblock_cts
+#print axioms Isotp.C04.blockInv_not_preserved_midblock
+#print axioms Isotp.C04.midblock_overrun_one_then_wait
+#print axioms Isotp.C04.abort_overflow
+#print axioms Isotp.C04.wait_unsupported
+#print axioms Isotp.C04.abort_wait_max
+#print axioms Isotp.C04.wait_accepted
+#print axioms Isotp.C04.abort_fc_timeout
+#print axioms Isotp.C04.after_end_idle
+#print axioms Isotp.C04.next_message
+#print axioms Isotp.C04.txWf_init
+#print axioms Isotp.C04.txWf_processTx
+#print axioms Isotp.C04.txWf_processRx
+#print axioms Isotp.C04.txWf_send
+#print axioms Isotp.C04.txWf_stopSending
+#print axioms Isotp.C04.txWf_reset
+#print axioms Isotp.C04.txWf_checkTimeoutsRx
+#print axioms Isotp.C04.txWf_advance
+#print axioms Isotp.C04.txWf_process
+#print axioms Isotp.C04.no_wedged_state
+#print axioms Isotp.C04.waitFc_deadline
+#print axioms Isotp.C04.transmitCf_deadline
+#print axioms Isotp.C04.prefix_fits
+#print axioms Isotp.C04.wait_frames_bounded
+#print axioms Isotp.C04.cts_resets_wait_count
